@@ -158,7 +158,7 @@ int main(int argc, char **argv) {
         if (!r.empty()) st.violation("C12:" + r, "cross-provider use fails: " + d, d); } } }
   if (!st.violations.empty()) return finish();
   // ---- (1) verdict agreement on valid and mutated tokens
-  uint64_t n = a.thorough() ? 15000 : 1500;
+  uint64_t n = a.thorough() ? 60000 : 1500;
   std::string params = "seed=" + std::to_string(a.seed * 1000 + a.worker) + " max_success=" + std::to_string(n) + " max_size=100";
   setenv("RC_PARAMS", params.c_str(), 1);
   Case lastfail; std::string lastwhy;
